@@ -21,6 +21,7 @@
 #include "ringbuffer_int.h"
 #include <qb/qbdefs.h>
 #include "atomic_int.h"
+#include "verif_hook.h"
 
 #define QB_RB_FILE_HEADER_VERSION 1
 
@@ -347,7 +348,9 @@ qb_rb_space_free(struct qb_ringbuffer_s * rb)
 			rb->notifier.space_used_fn(rb->notifier.instance);
 	}
 	write_size = rb->shared_hdr->write_pt;
+	QB_VERIF_POINT(QB_VP_RB_SF_RD_WP, rb, write_size, 0);
 	read_size = rb->shared_hdr->read_pt;
+	QB_VERIF_POINT(QB_VP_RB_SF_RD_RP, rb, read_size, 0);
 
 	if (write_size > read_size) {
 		space_free =
@@ -362,6 +365,7 @@ qb_rb_space_free(struct qb_ringbuffer_s * rb)
 		}
 	}
 
+	QB_VERIF_POINT(QB_VP_RB_SF_DONE, rb, space_free, 0);
 	/* word -> bytes */
 	return (space_free * sizeof(uint32_t));
 }
@@ -448,7 +452,9 @@ qb_rb_chunk_alloc(struct qb_ringbuffer_s * rb, size_t len)
 	 * insert the chunk header
 	 */
 	rb->shared_data[write_pt] = 0;
+	QB_VERIF_POINT(QB_VP_RB_AL_ZERO, rb, write_pt, 0);
 	QB_RB_CHUNK_MAGIC_SET(rb, write_pt, QB_RB_CHUNK_MAGIC_ALLOC);
+	QB_VERIF_POINT(QB_VP_RB_AL_ALLOC, rb, write_pt, QB_ATOMIC_RELEASE);
 
 	/*
 	 * return a pointer to the beginning of the chunk data
@@ -492,12 +498,15 @@ qb_rb_chunk_commit(struct qb_ringbuffer_s * rb, size_t len)
 	 */
 	old_write_pt = rb->shared_hdr->write_pt;
 	rb->shared_data[old_write_pt] = len;
+	QB_VERIF_POINT(QB_VP_RB_CM_LEN, rb, old_write_pt, len);
 
 	/*
 	 * commit the new write pointer
 	 */
 	rb->shared_hdr->write_pt = qb_rb_chunk_step(rb, old_write_pt);
+	QB_VERIF_POINT(QB_VP_RB_CM_WP, rb, rb->shared_hdr->write_pt, 0);
 	QB_RB_CHUNK_MAGIC_SET(rb, old_write_pt, QB_RB_CHUNK_MAGIC);
+	QB_VERIF_POINT(QB_VP_RB_CM_MAGIC, rb, old_write_pt, QB_ATOMIC_RELEASE);
 
 	DEBUG_PRINTF("commit [%zd] read: %u, write: %u -> %u (%u)\n",
 		     (rb->notifier.q_len_fn ?
@@ -531,6 +540,7 @@ qb_rb_chunk_write(struct qb_ringbuffer_s * rb, const void *data, size_t len)
 	}
 
 	memcpy(dest, data, len);
+	QB_VERIF_POINT(QB_VP_RB_WR_COPY, rb, len, 0);
 
 	res = qb_rb_chunk_commit(rb, len);
 	if (res < 0) {
@@ -551,21 +561,28 @@ _rb_chunk_reclaim(struct qb_ringbuffer_s * rb)
 
 	old_read_pt = rb->shared_hdr->read_pt;
 	chunk_magic = QB_RB_CHUNK_MAGIC_GET(rb, old_read_pt);
+	QB_VERIF_POINT(QB_VP_RB_RC_MAGIC, rb, chunk_magic, old_read_pt);
 	if (old_read_pt == rb->shared_hdr->write_pt ||
 	    chunk_magic != QB_RB_CHUNK_MAGIC) {
 		/* empty (whatever stale data sits there), or not committed yet */
+		QB_VERIF_POINT(QB_VP_RB_RC_CHECK, rb, 0, 0);
 		errno = EINVAL;
 		return -errno;
 	}
 
+	QB_VERIF_POINT(QB_VP_RB_RC_CHECK, rb, 1, 0);
 	old_chunk_size = QB_RB_CHUNK_SIZE_GET(rb, old_read_pt);
+	QB_VERIF_POINT(QB_VP_RB_RC_SIZE, rb, old_chunk_size, 0);
 	new_read_pt = qb_rb_chunk_step(rb, old_read_pt);
+	QB_VERIF_POINT(QB_VP_RB_RC_STEP, rb, new_read_pt, 0);
 
 	/*
 	 * clear the header
 	 */
 	rb->shared_data[old_read_pt] = 0;
+	QB_VERIF_POINT(QB_VP_RB_RC_ZERO, rb, old_read_pt, 0);
 	QB_RB_CHUNK_MAGIC_SET(rb, old_read_pt, QB_RB_CHUNK_MAGIC_DEAD);
+	QB_VERIF_POINT(QB_VP_RB_RC_DEAD, rb, old_read_pt, QB_ATOMIC_RELEASE);
 
 	/*
 	 * set the new read pointer after clearing the header
@@ -574,6 +591,7 @@ _rb_chunk_reclaim(struct qb_ringbuffer_s * rb)
 	 * header.
 	 */
 	rb->shared_hdr->read_pt = new_read_pt;
+	QB_VERIF_POINT(QB_VP_RB_RC_RP, rb, new_read_pt, 0);
 
 	if (rb->notifier.reclaim_fn) {
 		rc = rb->notifier.reclaim_fn(rb->notifier.instance,
@@ -617,6 +635,7 @@ qb_rb_chunk_peek(struct qb_ringbuffer_s * rb, void **data_out, int32_t timeout)
 	if (rb->notifier.timedwait_fn) {
 		res = rb->notifier.timedwait_fn(rb->notifier.instance, timeout);
 	}
+	QB_VERIF_POINT(QB_VP_RB_RD_WAIT, rb, res, 0);
 	if (res < 0 && res != -EIDRM) {
 		if (res == -ETIMEDOUT) {
 			return 0;
@@ -628,10 +647,13 @@ qb_rb_chunk_peek(struct qb_ringbuffer_s * rb, void **data_out, int32_t timeout)
 	}
 	read_pt = rb->shared_hdr->read_pt;
 	chunk_magic = QB_RB_CHUNK_MAGIC_GET(rb, read_pt);
+	QB_VERIF_POINT(QB_VP_RB_RD_MAGIC, rb, chunk_magic, read_pt);
 	if (read_pt == rb->shared_hdr->write_pt ||
 	    chunk_magic != QB_RB_CHUNK_MAGIC) {
+		QB_VERIF_POINT(QB_VP_RB_RD_CHECK, rb, 0, 0);
 		if (rb->notifier.post_fn) {
 			(void)rb->notifier.post_fn(rb->notifier.instance, res);
+			QB_VERIF_POINT(QB_VP_RB_RD_REPOST, rb, 0, 0);
 		}
 #ifdef EBADMSG
 		return -EBADMSG;
@@ -639,7 +661,9 @@ qb_rb_chunk_peek(struct qb_ringbuffer_s * rb, void **data_out, int32_t timeout)
 		return -EINVAL;
 #endif
 	}
+	QB_VERIF_POINT(QB_VP_RB_RD_CHECK, rb, 1, 0);
 	chunk_size = QB_RB_CHUNK_SIZE_GET(rb, read_pt);
+	QB_VERIF_POINT(QB_VP_RB_RD_SIZE, rb, chunk_size, 0);
 	*data_out = QB_RB_CHUNK_DATA_GET(rb, read_pt);
 	return chunk_size;
 }
@@ -659,6 +683,7 @@ qb_rb_chunk_read(struct qb_ringbuffer_s * rb, void *data_out, size_t len,
 	if (rb->notifier.timedwait_fn) {
 		res = rb->notifier.timedwait_fn(rb->notifier.instance, timeout);
 	}
+	QB_VERIF_POINT(QB_VP_RB_RD_WAIT, rb, res, 0);
 	if (res < 0 && res != -EIDRM) {
 		if (res != -ETIMEDOUT) {
 			errno = -res;
@@ -669,13 +694,16 @@ qb_rb_chunk_read(struct qb_ringbuffer_s * rb, void *data_out, size_t len,
 
 	read_pt = rb->shared_hdr->read_pt;
 	chunk_magic = QB_RB_CHUNK_MAGIC_GET(rb, read_pt);
+	QB_VERIF_POINT(QB_VP_RB_RD_MAGIC, rb, chunk_magic, read_pt);
 
 	if (read_pt == rb->shared_hdr->write_pt ||
 	    chunk_magic != QB_RB_CHUNK_MAGIC) {
+		QB_VERIF_POINT(QB_VP_RB_RD_CHECK, rb, 0, 0);
 		if (rb->notifier.timedwait_fn == NULL) {
 			return -ETIMEDOUT;
 		} else {
 			(void)rb->notifier.post_fn(rb->notifier.instance, res);
+			QB_VERIF_POINT(QB_VP_RB_RD_REPOST, rb, 0, 0);
 #ifdef EBADMSG
 			return -EBADMSG;
 #else
@@ -684,13 +712,16 @@ qb_rb_chunk_read(struct qb_ringbuffer_s * rb, void *data_out, size_t len,
 		}
 	}
 
+	QB_VERIF_POINT(QB_VP_RB_RD_CHECK, rb, 1, 0);
 	chunk_size = QB_RB_CHUNK_SIZE_GET(rb, read_pt);
+	QB_VERIF_POINT(QB_VP_RB_RD_SIZE, rb, chunk_size, 0);
 	if (len < chunk_size) {
 		qb_util_log(LOG_ERR,
 			    "trying to recv chunk of size %d but %d available",
 			    len, chunk_size);
 		if (rb->notifier.post_fn) {
 			(void)rb->notifier.post_fn(rb->notifier.instance, chunk_size);
+			QB_VERIF_POINT(QB_VP_RB_RD_REPOST, rb, 1, 0);
 		}
 		return -ENOBUFS;
 	}
@@ -698,6 +729,7 @@ qb_rb_chunk_read(struct qb_ringbuffer_s * rb, void *data_out, size_t len,
 	memcpy(data_out,
 	       QB_RB_CHUNK_DATA_GET(rb, read_pt),
 	       chunk_size);
+	QB_VERIF_POINT(QB_VP_RB_RD_COPY, rb, chunk_size, 0);
 
 	_rb_chunk_reclaim(rb);
 
